@@ -159,6 +159,8 @@ def run_impl(case):
     times = [float(i + 1) for i in range(case["steps"])]
     det = pyx.make_detector("CCD", 3, 4)
     out = {}
+    if case.get("entry") == "yaml":
+        return run_yaml(case, times)
     if mode == "exposure":
         pipe = build_pipeline(case)
         try:
@@ -263,6 +265,80 @@ def run_impl(case):
         finally:
             shutil.rmtree(tmp, ignore_errors=True)
     raise ValueError(mode)
+
+
+def yaml_document(case, times, tmp):
+    """the configuration file of the case: same pipeline, same plan, started through `pyxel.run(<file>)`"""
+    mode = case["mode"]
+    pipe = build_pipeline(case)
+    pdoc = {}
+    if mode == "calibration":
+        pdoc["scene_generation"] = [{"name": "writer", "func": "probes.cal_probe", "enabled": True, "arguments": {"a": 1.0, "b": 0.0}}]
+    for g, _ in case["groups"]:
+        pdoc[g] = [{"name": m.name, "func": FUNC, "enabled": bool(m.enabled), "arguments": dict(m.arguments)} for m in getattr(pipe, g).models]
+    outputs = None
+    if case.get("outputs"):
+        outputs = {"output_folder": tmp + "/out"}
+        if mode != "calibration":
+            # something to save: an image writer at the end of the pipeline (not part of the judged schedule)
+            outputs["save_data_to_file"] = [{"detector.image.array": ["npy"]}]
+            pdoc["data_processing"] = [{"name": "wimg", "func": "probes.write_image", "enabled": True, "arguments": {}}]
+    if mode == "exposure":
+        section = {"exposure": {"readout": {"times": times}}}
+    elif mode == "sequential":
+        k1, k2 = swept_keys(case)
+        params = [{"key": k1, "values": list(case["levels"])}] + ([{"key": k2, "values": list(case["levels2"])}] if case["levels2"] else [])
+        section = {"observation": {"mode": "product", "with_dask": False, "parameters": params, "readout": {"times": times}}}
+    else:
+        section = {"calibration": {
+            "result_type": "pixel", "result_fit_range": [0, 3, 0, 4], "target_fit_range": [0, 3, 0, 4],
+            "target_data_path": [tmp + "/t.npy"], "fitness_function": {"func": "pyxel.calibration.fitness.sum_of_abs_residuals"},
+            "algorithm": dict(case["algo"]), "pygmo_seed": case["pygmo_seed"], "num_islands": case["islands"], "num_evolutions": 2,
+            "parameters": [{"key": "pipeline.scene_generation.writer.arguments.a", "values": "_", "boundaries": [0, 5]},
+                           {"key": "pipeline.scene_generation.writer.arguments.b", "values": "_", "boundaries": [0, 5]}]}}
+    if outputs:
+        next(iter(section.values()))["outputs"] = outputs
+    return {**section,
+            "ccd_detector": {
+                "geometry": {"row": 3, "col": 4, "total_thickness": 10.0, "pixel_vert_size": 10.0, "pixel_horz_size": 10.0},
+                "environment": {"temperature": 100.0},
+                "characteristics": {"quantum_efficiency": 0.5, "charge_to_volt_conversion": 1e-6, "pre_amplification": 10.0,
+                                    "adc_bit_resolution": 16, "adc_voltage_range": [0.0, 5.0], "full_well_capacity": 1000}},
+            "pipeline": pdoc}
+
+
+def run_yaml(case, times):
+    """start the simulation the way a user does: `pyxel.run(<yaml file>)` (with or without an `outputs:` section)"""
+    import os
+
+    import numpy as np
+    import probes
+    import pyxel
+    import yaml
+
+    tmp = tempfile.mkdtemp(prefix="c09-")
+    cwd = os.getcwd()
+    out = {}
+    try:
+        np.save(tmp + "/t.npy", np.full((3, 4), 3.0))
+        path = tmp + "/config.yaml"
+        with open(path, "w") as fh:
+            yaml.safe_dump(yaml_document(case, times, tmp), fh, sort_keys=False)
+        os.chdir(tmp)  # pyxel.run moves ./pyxel.log into the output folder
+        probes.reset()
+        probes.FAULT_CALLS["n"] = 0
+        try:
+            res = pyxel.run(path)
+            out["result"] = {"ok": type(res).__name__}
+        except Exception as e:  # noqa: BLE001
+            out["result"] = {"err": exc_record(e)}
+        if case["mode"] in ("exposure", "sequential"):
+            out["trace"] = trace_from_log(case, list(probes.LOG))
+        out["calls"] = sum(1 for r in probes.LOG if r[0] == "fault")
+        return out
+    finally:
+        os.chdir(cwd)
+        shutil.rmtree(tmp, ignore_errors=True)
 
 
 def _with_writer(case, writer):
@@ -447,6 +523,11 @@ def body(ck: common.Check):
             if c["fault"]:
                 c["fault"]["exc"] = name
             cases.append(("classes", c))
+    # the file entry point `pyxel.run(<yaml>)` (what the command line calls), with and without an `outputs:` section
+    for i in range(16 if quick else 120):
+        c = gen_case(rng, ["exposure", "sequential"][i % 2], no_fault=(i % 8 == 7))
+        c.update({"entry": "yaml", "outputs": (i // 2) % 2 == 0})
+        cases.append(("yaml", c))
     # parallel path, every class at a run inside the dask graph (k >= 1) and at the eagerly executed first
     # combination (k = 0), with float and integer buckets filled by a writer model in half of the cases: a handler
     # around the task that answers some exception classes with placeholder data must show up for each class
@@ -469,6 +550,8 @@ def body(ck: common.Check):
         impl = run_impl(case)
         ck.case(case, nontrivial=case["fault"] is not None, stream=stream)
         ck.count("mode=" + case["mode"])
+        if case.get("entry") == "yaml":
+            ck.count("yaml_entry:outputs=" + str(bool(case["outputs"])))
         if case["fault"]:
             ck.count("exc=" + case["fault"]["exc"])
             ck.count("fault_in_run>0", int(case["fault"]["run"] > 0))
@@ -476,6 +559,14 @@ def body(ck: common.Check):
         else:
             ck.count("no_fault")
         pv = property_predicate(case, impl)
+        if pv and pv[0].startswith("C09:spurious-error"):
+            # an error without any failing model is not what the statement is about: model vs implementation
+            err = (impl.get("result") or {}).get("err") or {}
+            key = pv[0]
+            if case.get("entry") == "yaml" and case["mode"] == "sequential" and case.get("outputs") and "is not in the subpath of" in err.get("msg", ""):
+                key += ":pyxel-run-sequential-observation-output-filenames"
+            ck.disagreement(stream, case, {"impl": impl, "why": pv[1]}, "runs to completion", key=key)
+            continue
         if pv:
             ck.violation(pv[0], pv[1], {"case": case, "impl": impl})
         why = compare(case, impl, ans)
@@ -514,6 +605,9 @@ def body(ck: common.Check):
         c.update({"algo": algo, "islands": islands, "pygmo_seed": rng.randrange(1, 100000)})
         if c["fault"]:
             c["fault"]["nth"] = nth
+        if i % 3 == 2 or i == ncal - 1:
+            c.update({"entry": "yaml", "outputs": i % 2 == 0})
+            ck.count("yaml_entry:outputs=" + str(bool(c["outputs"])))
         impl = run_impl(c)
         ck.case(c, nontrivial=c["fault"] is not None, stream="calibration")
         ck.count("mode=calibration")
@@ -522,7 +616,7 @@ def body(ck: common.Check):
         if pv:
             ck.violation(pv[0], pv[1], {"case": c, "impl": impl})
     ck.rule = ("pipelines of 1-3 groups x 1-3 models (some disabled), 1-3 readout steps; exposure, sequential observation over 2-3 values "
-               "(x 2 values of a second parameter), parallel observation (threads; every class at a run inside the dask graph and at the eager first run, with and without float/integer buckets written), calibration (sade / sga / nlopt; fault at an evaluation of the "
+               "(x 2 values of a second parameter), the same through the file entry point pyxel.run(<yaml>) with and without an outputs section (exposure, sequential observation, calibration), parallel observation (threads; every class at a run inside the dask graph and at the eager first run, with and without float/integer buckets written), calibration (sade / sga / nlopt; fault at an evaluation of the "
                f"initial population or of an evolution); {len(EXCS)} exception classes (incl. StopIteration, warnings, MemoryError), odd constructors / custom __str__, messages with newlines, "
                "unicode, empty; a fault at EVERY (run, step, position) of small pipelines + random positions + fault-free runs; "
                "non-trivial = a fault is injected")
